@@ -7,6 +7,7 @@ import (
 	"regexp"
 	"sort"
 	"strings"
+	"unicode/utf8"
 
 	"golang.org/x/mod/module"
 	"golang.org/x/mod/semver"
@@ -28,7 +29,7 @@ func init() {
 	}
 	impls["semver.canonicalversion"] = func(a []string) string { return hx(module.CanonicalVersion(unhx(a[0]))) }
 	register(&Prop{ID: "C04", Gen: genC04, Oracle: oracleC04,
-		Rule: "grammar-directed versions (numeric fields 1-40 digits, 0-4 prerelease identifiers of 4 kinds, build parts), near-misses by one mutation, pairs with long common prefixes, divergent pairs (common prefix cut at every kind of junction inside the prerelease, tails of different length/class), random bytes; non-trivial = valid or one mutation from valid; distinct by op line"})
+		Rule: "grammar-directed versions (numeric fields 1-40 digits, 0-4 prerelease identifiers of 4 kinds, build parts), near-misses by one mutation, pairs with long common prefixes, divergent pairs (common prefix cut at every kind of junction inside the prerelease, tails of different length/class), every byte value and well-formed non-ASCII runes of every residue mod 256 and every UTF-8 length at every position of grammar-generated versions, random bytes; non-trivial = valid or one mutation from valid; distinct by op line"})
 }
 
 const digits = "0123456789"
@@ -392,6 +393,26 @@ func genC04(g *Gen, n int) {
 			g.Emit("semver.sort "+hxList(l), nt, "sort")
 		}
 	}
+	// well-formed non-ASCII runes at every position of grammar-generated full versions (prerelease
+	// and build), one code point of a random UTF-8 length per residue mod 256 (see c04RuneSweep)
+	for _, res := range c04Residues(true) {
+		rs := c04ResidueRunes(g.Rand, res, false)
+		c := rs[g.Intn(len(rs))]
+		tmpl := tmpls[len(tmpls)-1]
+		if thorough {
+			tmpl = genValidVersion(g.Rand)
+		}
+		c04RuneSweep(tmpl, c, g.Bool(), func(v string) {
+			switch g.Intn(7) {
+			case 0:
+				g.Emit("semver.compare "+hx(v)+" "+hx(tmpl), true, "rune-sweep")
+			case 1:
+				g.Emit("semver.sort "+hxList([]string{tmpl, v, "v0.0.0-0", v + "x"}), true, "rune-sweep")
+			default:
+				g.Emit(ops[g.Intn(len(ops))]+hx(v), true, "rune-sweep")
+			}
+		})
+	}
 }
 
 // independent grammar oracle (regexp), from the package documentation + SemVer 2.0.0
@@ -474,6 +495,84 @@ func c04ByteSweep(tmpl string, insert bool, f func(v string)) {
 			if insert {
 				f(tmpl[:pos] + string([]byte{byte(b)}) + tmpl[pos:])
 			}
+		}
+	}
+}
+
+// c04ResidueRunes returns well-formed non-ASCII code points that are congruent to res modulo 256, from
+// every encoded length: U+0080..U+00FF itself (only for res >= 0x80; two bytes, the control where the
+// low byte IS the code point), U+01xx and U+04xx (two bytes; Latin Extended-A, Cyrillic), a random
+// three-byte code point (surrogates skipped), a random four-byte code point, and a four-byte code
+// point whose low SIXTEEN bits are res (U+10000*m + res). wide adds all of U+0100..U+07FF and more
+// random three- and four-byte ones.
+func c04ResidueRunes(r *Rand, res int, wide bool) []rune {
+	var ks []int
+	if res >= 0x80 {
+		ks = append(ks, 0)
+	}
+	ks = append(ks, 1, 4)
+	if wide {
+		ks = append(ks, 2, 3, 5, 6, 7)
+	}
+	m := 1
+	if wide {
+		m = 4
+	}
+	for i := 0; i < m; i++ {
+		k := 8 + r.Intn(248)
+		if 0xd8 <= k && k <= 0xdf {
+			k -= 0x40
+		}
+		ks = append(ks, k, 256+r.Intn(0x1100-256), 256*(1+r.Intn(16)))
+	}
+	var out []rune
+	for _, k := range ks {
+		c := rune(256*k + res)
+		if c >= 0x80 && utf8.ValidRune(c) {
+			out = append(out, c)
+		}
+	}
+	return out
+}
+
+// c04Residues returns the residues modulo 256 the rune sweep uses: every identifier byte
+// [0-9A-Za-z-], the structural bytes of the grammar ('v', '.', '+'), and a few controls that are
+// no version character (NUL, newline, space, '_', 0x80, 0xe9, 0xfd, 0xff); all 256 when all is set.
+func c04Residues(all bool) []int {
+	var out []int
+	for b := 0; b < 256; b++ {
+		c := byte(b)
+		ident := '0' <= c && c <= '9' || 'A' <= c && c <= 'Z' || 'a' <= c && c <= 'z' || c == '-'
+		if all || ident || strings.IndexByte(".+\x00\n _\x80\xe9\xfd\xff", c) >= 0 {
+			out = append(out, b)
+		}
+	}
+	return out
+}
+
+// c04RuneSweep calls f on every string obtained from the (ASCII) template tmpl by replacing the byte at
+// one position by the UTF-8 encoding of c, or (insert) inserting it at any position including the end.
+//
+// Input class added for seeded change r6-C04-a: well-formed non-ASCII runes inside build metadata /
+// prerelease identifiers (and every other position of a well-formed version), swept by the value of
+// the code point modulo 256. All other streams are byte-oriented: the foreign byte of a near-miss is
+// one arbitrary byte (c04ByteSweep) or comes from a small alphabet, so a multi-byte character only
+// ever appears as the two fixed literals "v1.2.3-\u00e9" / "v1.2.3-\xff" - a stray high byte, or a
+// Latin-1 letter whose code point is its own low byte. A scanner that iterates over the string by
+// rune and narrows the rune to a byte before classifying it (there: isIdentChar(byte(c)) in
+// parseBuild) is wrong exactly on well-formed multi-byte characters whose code point reduced mod 256
+// is an identifier byte (Cyrillic U+0430.., U+012D, U+0130..U+0139, CJK, ...), placed where everything
+// else is legal; no single-byte substitution produces such a string. The sweep is exhaustive in the
+// residue (every identifier byte, the separators, some controls) and in the position, and samples
+// the code point of each residue from every UTF-8 length (see c04ResidueRunes).
+func c04RuneSweep(tmpl string, c rune, insert bool, f func(v string)) {
+	e := string(c)
+	for pos := 0; pos <= len(tmpl); pos++ {
+		if pos < len(tmpl) {
+			f(tmpl[:pos] + e + tmpl[pos+1:])
+		}
+		if insert {
+			f(tmpl[:pos] + e + tmpl[pos:])
 		}
 	}
 }
@@ -566,6 +665,25 @@ func oracleC04(g *Gen, n int) {
 		}
 		if !perm || !ordered {
 			g.Fail("Sort result is not an ordered permutation", strings.Join(l, " "), "semver.sort "+hxList(l))
+		}
+	}
+	// well-formed non-ASCII runes, by residue of the code point mod 256, substituted / inserted at every
+	// position of the sweep templates (see c04RuneSweep): the one-string clauses - first of all validity
+	// against the independent regular grammar semverRE - and the order against the template.
+	for _, tmpl := range c04SweepTemplates(g.Rand, k) {
+		for _, res := range c04Residues(thorough) {
+			for _, c := range c04ResidueRunes(g.Rand, res, thorough) {
+				c04RuneSweep(tmpl, c, true, func(v string) {
+					g.Case("rune-sweep")
+					c04CheckOne(g, v)
+					got, want := semver.Compare(v, tmpl), c04RefCompare(v, tmpl)
+					if got != want && !semverRE.MatchString(v) {
+						g.Fail("invalid version not below valid one", v+" "+tmpl, "semver.compare "+hx(v)+" "+hx(tmpl))
+					} else if got != want {
+						g.Fail("Compare is not SemVer 2.0.0 precedence", v+" "+tmpl+" got "+itoa(got)+" want "+itoa(want), "semver.compare "+hx(v)+" "+hx(tmpl))
+					}
+				})
+			}
 		}
 	}
 }
